@@ -57,9 +57,10 @@ CHECKS = {
     "C11": dict(
         level="model_checking",
         rule="hook status(6) x live-vs-cached parent(5: same, spec edited, labels edited, recreated with new UID, gone) x existing status(3) x real conflicts caused between GET and PUT(0,1,2,4) x injected fault on the status path(5) x child reconciliation ok/fails; "
-             "plus the finalize path (finalized x live edited x foreign finalizer); every case distinct, one real sync each + the live status edited behind the cache (cached status already equal to the desired one); discovery lists a scale subresource after status for the parent kind",
+             "plus the finalize path (finalized x live edited x foreign finalizer); every case distinct, one real sync each + the live status edited behind the cache (cached status already equal to the desired one); discovery lists a scale subresource after status for the parent kind; plus rolling parents: hook status shape(9: none, flat, nested, other conditions, an own Updated condition first / in the middle / alone, empty list) x rollout phase(4: on latest, progressing, waiting, completed) x method(2) x generateSelector(2), judged sync + repeat: stored status = hook status of the latest revision with only the Updated condition replaced/appended + observedGeneration, no write when nothing changes",
         units=[
             dict(pkg=COMPOSITE, test="TestVerifC11", shards=dict(quick=8, thorough=16), budget=dict(quick=300, thorough=900)),
+            dict(pkg=COMPOSITE, test="TestVerifC11Roll", shards=dict(quick=2, thorough=2), budget=dict(quick=300, thorough=600)),
         ],
         assumptions=SIM_ASSUMPTIONS + ["conflicts are caused (a real external edit between the controller's GET and PUT), never fabricated; client-go's real 10/50/250 ms conflict back-off runs but is never used as an oracle"],
     ),
